@@ -63,14 +63,16 @@ def _get_uses_of(node: ast.AST, scope: ast.AST, source: str) -> Iterable[ast.Nam
         if refnode not in blacklisted_names
     }
 
-    # Later assignments to the same name, for example in an if or a loop below the first one
     ctx_store_candidates = {
         refnode
         for refnode in core.walk(scope, ast.Name(ctx=ast.Store, id=name))
         if refnode is not node and refnode not in blacklisted_names
     }
 
-    for refnode in augass_candidates | ctx_load_candidates | ctx_store_candidates:
+    # Other assignments to the same name in this scope bind the same variable, wherever they are
+    yield from ctx_store_candidates
+
+    for refnode in (augass_candidates | ctx_load_candidates) - ctx_store_candidates:
         n_start = (refnode.lineno, refnode.col_offset)
         n_end = (refnode.end_lineno, refnode.end_col_offset)
         if end < n_start:
